@@ -5,7 +5,7 @@ from vlib import content as C
 
 from . import corecommon as cc
 
-PROPS = ["MxlVerif.Props.C01"]
+PROPS = ["MxlVerif.Props.C01", "MxlVerif.Props.C01Main"]
 
 
 def setup(ctx):
